@@ -58,8 +58,8 @@ type Pause struct {
 
 type Run struct {
 	Restart  string `json:"restart"` // process | input
-	Fault    string `json:"fault"`   // none | crash | stop
-	At       int    `json:"at"`      // crash / stop: after this many requests of this run
+	Fault    string `json:"fault"`   // none | crash | crash-start | stop
+	At       int    `json:"at"`      // crash / stop: after this many requests counted from the start of Send; crash-start: from the start of the run
 	FeedTo   int    `json:"feedTo"`  // the source has produced units [0, FeedTo) by the end of this run
 	LingerMs int    `json:"lingerMs"`
 }
@@ -115,7 +115,7 @@ func genCase(t *rapid.T) Case {
 	nr := rapid.IntRange(1, 4).Draw(t, "nruns")
 	fed := 0
 	for i := 0; i < nr; i++ {
-		r := Run{Restart: "process", Fault: rapid.SampledFrom([]string{"crash", "crash", "stop", "none"}).Draw(t, "fault")}
+		r := Run{Restart: "process", Fault: rapid.SampledFrom([]string{"crash", "crash", "crash", "crash-start", "stop", "none"}).Draw(t, "fault")}
 		if i > 0 && rapid.IntRange(0, 2).Draw(t, "input") == 0 {
 			r.Restart = "input"
 		}
@@ -123,9 +123,34 @@ func genCase(t *rapid.T) Case {
 			fed = rapid.IntRange(fed, nu).Draw(t, "feedTo")
 		}
 		r.FeedTo = fed
-		r.At = rapid.IntRange(1, 6*nu+30).Draw(t, "at")
+		// crash / stop: requests counted from the moment Send starts; crash-start: from the beginning of the run (start-up recovery included)
+		if r.Fault == "crash-start" {
+			r.At = rapid.IntRange(1, 40).Draw(t, "at")
+		} else {
+			r.At = rapid.IntRange(1, 7*nu+8).Draw(t, "at")
+		}
 		r.LingerMs = rapid.SampledFrom([]int{0, 5, 30, 120, 230}).Draw(t, "linger")
 		c.Runs = append(c.Runs, r)
+	}
+	if c.Nodes > 0 && rapid.IntRange(0, 3).Draw(t, "laneRace") == 0 {
+		// lanes racing from the very first unit: the node that owns the first unit is slow, the others are not, and the first run is cut short
+		// by a crash while no frontier has been stored yet
+		c.Link.Mode, c.Link.Parallelism = "parallel", rapid.SampledFrom([]int{0, c.Nodes}).Draw(t, "lanes")
+		owner := 0
+		for owner < len(c.Bounds) && int(slotOf(c.Units[0].Keys[0])) >= c.Bounds[owner] {
+			owner++
+		}
+		for i := range c.DelayUs {
+			c.DelayUs[i] = 0
+		}
+		c.DelayUs[owner] = rapid.SampledFrom([]int{3000, 8000}).Draw(t, "slow")
+		c.Runs[0].Fault, c.Runs[0].FeedTo = "crash", nu
+		c.Runs[0].At = rapid.IntRange(5, 6*nu).Draw(t, "raceAt")
+		for i := range c.Runs {
+			if c.Runs[i].FeedTo < nu {
+				c.Runs[i].FeedTo = nu
+			}
+		}
 	}
 	// the last run: everything is produced and applied, then a graceful stop; one more start asks for the final resume point
 	c.Runs = append(c.Runs, Run{Restart: rapid.SampledFrom([]string{"process", "input"}).Draw(t, "lastRestart"), Fault: "none", FeedTo: nu, LingerMs: rapid.SampledFrom([]int{0, 30, 150}).Draw(t, "lastLinger")})
@@ -417,7 +442,7 @@ func run(c Case) (fs []failure, inconc string, cls map[string]bool, hist any) {
 			return fs, "", cls, nil
 		}
 		rl.Committed = sortedUnits(before.committed)
-		if r.Fault == "crash" {
+		if r.Fault == "crash-start" {
 			wd.w.Arm(r.At)
 		}
 		if r.Restart == "process" || ro == nil {
@@ -508,6 +533,9 @@ func run(c Case) (fs []failure, inconc string, cls map[string]bool, hist any) {
 		done := make(chan error, 1)
 		base := wd.w.Total()
 		wd.sending.Store(true)
+		if r.Fault == "crash" {
+			wd.w.Arm(r.At)
+		}
 		go func(ro *syncer.RedisOutput) {
 			done <- ro.Send(ctx, &gen.Reader{R: bufio.NewReaderSize(pr, 4096), LeftV: sp.Offset, RunID: ids[0], Aof: true, SizeV: -1})
 		}(ro)
@@ -657,8 +685,8 @@ func prevFault(runs []Run, ri int) string {
 	}
 	p := runs[ri-1]
 	switch p.Fault {
-	case "crash":
-		return fmt.Sprintf("a crash at request %d", p.At)
+	case "crash", "crash-start":
+		return fmt.Sprintf("a %s at request %d", p.Fault, p.At)
 	case "stop":
 		return fmt.Sprintf("a stop at request %d", p.At)
 	}
